@@ -303,6 +303,19 @@ def r_scope_args(ck: Checker) -> None:
             elem = next(iter(body_t))[5:-11] if body_t else "?"
             ok_rest = rest_t == {f"list({elem}.terms)+list({stm}.body)"}
             ck.add("aggregate: the group is searched in one element condition", ok_body and bool(body_t), func, call, f"body argument {sorted(body_t)}", "")
+            gv_name = unparse(call.args[1])
+            tup = [c for c in attr_calls(func, "update") if unparse(c.func.value) == gv_name and it.reachable(c)]  # type: ignore[attr-defined]
+            seen_t = False
+            for c in tup:
+                a0 = c.args[0]
+                if isinstance(a0, ast.Call) and callee_is(ck.prg, func, a0, "ngo.utils.ast:collect_ast") and is_const(a0.args[1], "Variable") and isinstance(a0.args[0], ast.Name):
+                    orgs = {st.origin.get(a0.args[0].id, "") for st in it.states(c)}
+                    lp_t = enclosing_loop(func, c)
+                    okk_t, n_t = every_iteration_reaches(ck, func, lp_t, c, None) if lp_t is not None else (False, 0)
+                    if orgs == {f"{elem}.terms[*]"} and okk_t and n_t > 0 and c.lineno < call.lineno:
+                        seen_t = True
+            ck.add("aggregate: the variables of the element's tuple are observed", seen_t, func, call, f"`{gv_name}` receives the variables of every term of `{elem}.terms` before the search: {seen_t}",
+                   "the tuple terms handed over in `rest` are bare terms, which the binding analysis ignores: `#sum{1,J1 : p(J1,X), p(J2,X), J1 != J2}` becomes `#sum{1,J1 : __aux(X)}` with an unsafe J1")
             ck.add("aggregate: tuple terms and the whole rule body are visible", ok_rest, func, call, f"rest argument {sorted(rest_t)}; expected list({elem}.terms)+list({stm}.body)",
                    "a compared variable bound or used by ANY body literal (before or after the aggregate) is global and must block the rewrite")
         else:
